@@ -13,12 +13,26 @@ Two families:
    disconnect, connect, `start\n` -> `T:2start\n`).  Nothing is lost, duplicated or reordered, so the property as
    stated holds; the whole-life oracle therefore cuts the concatenation of everything the Device received
    after each newline and, additionally, at each close by the PEER.
+
+Schedules also contain *status polls*: reads of the public, read-only `Device.is_connected` property placed before
+any subset of the readline() calls (printcore's listener asks it before every read).  The statement quantifies over
+every schedule of reads; a status query in between is not allowed to change what the reads return.  So that a Device
+that looks at its socket while answering sees the truth, the object standing for the socket (`_FakeSocket`) answers
+`recv(n)` / `recv(n, MSG_PEEK)` from the same scripted stream as the socket file: BlockingIOError while the script
+says "no data yet", the next bytes when a chunk is due, b'' once the peer has closed.  The model has no notion of a
+poll (it is a no-op there), so polled cases are compared with the model exactly like the others.
+
+A third, small family runs over REAL loopback TCP connections (no scripting at all: kernel socket, real selector),
+with the peer sending in 1..3 phases and closing, the Device reading - with or without status polls - in between.
+It is judged by the oracle only (the kernel decides the fragmentation, so there is no event script for the model).
 """
 from __future__ import annotations
 
 import contextlib
+import errno
 import itertools
 import random
+import socket as _socket
 
 from . import core
 
@@ -33,19 +47,47 @@ class _SockFile:
         self.reads = list(reads)
         self.i = 0
         self.closed = False
+        self.taken = []          # everything handed out (and consumed), in order
+        self.peeked_eof = False  # a non-consuming look at the stream has been answered "closed by the peer"
 
     def close(self):
         self.closed = True
 
-    def read(self, n):
-        if self.closed:
-            raise ValueError("I/O operation on closed file")
+    def _next(self):
         if self.i >= len(self.reads):
             # script exhausted: EOF is sticky, otherwise "no data yet" for ever
             return b"" if (self.reads and self.reads[-1] == b"") else None
-        v = self.reads[self.i]
-        self.i += 1
+        return self.reads[self.i]
+
+    def read(self, n):
+        if self.closed:
+            raise ValueError("I/O operation on closed file")
+        v = self._next()
+        if self.i < len(self.reads):
+            self.i += 1
+            self.taken.append(v)
         assert v is None or len(v) <= n
+        return v
+
+    def recv(self, n, flags=0):
+        """`socket.recv` of the (non-blocking) socket under the file, over the same script."""
+        v = self._next()
+        if v is None:
+            if self.i < len(self.reads) and not flags & _socket.MSG_PEEK:
+                self.i += 1
+                self.taken.append(None)
+            raise BlockingIOError(errno.EAGAIN, "Resource temporarily unavailable")
+        if flags & _socket.MSG_PEEK:
+            if v == b"":
+                self.peeked_eof = True
+            return v[:n]
+        if self.i < len(self.reads):
+            if len(v) > n:
+                self.reads[self.i] = v[n:]
+                v = v[:n]
+            else:
+                self.i += 1
+            self.taken.append(v)
         return v
 
 
@@ -101,30 +143,20 @@ def lower_events(events, rng):
     return reads, sels
 
 
-def impl_run(events, ncalls, rng):
-    from gscrib.printrun.device import READ_EMPTY, READ_EOF, Device
+def impl_run(events, ncalls, rng, polls=None):
+    from gscrib.printrun.device import Device
 
     reads, sels = lower_events(events, rng)
     d = Device()
     d._type = "socket"
-    d._device = object()
     d._socketfile = _SockFile(reads)
     d._selector = _Sel(sels)
+    d._device = _FakeSocket(None, (d._socketfile, d._selector))
     d._is_connected = True
     d._timeout = 0
     d._hostname, d._port_number = "h", 1
-    out = []
-    for _ in range(ncalls):
-        r = d.readline()
-        if r is READ_EOF:
-            out.append("E")
-        elif r == READ_EMPTY:
-            out.append("-")
-        else:
-            out.append("l" + bytes(r).hex())
-    buf = d._read_buffer
-    pending = bytes(buf) if isinstance(buf, (bytes, bytearray)) else b"".join(bytes(c) for c in buf)
-    return " ".join(out) + " | buf=" + pending.hex()
+    out = _calls(d, ncalls, polls)
+    return " ".join(out) + " | buf=" + _pending(d).hex()
 
 
 def model_line(events, ncalls):
@@ -139,8 +171,15 @@ class _FakeSocket:
     """What `socket.socket(AF_INET, SOCK_STREAM)` hands to Device._connect_socket: connect() succeeds at once and
     makefile() is the scripted file of the next scripted connection."""
 
-    def __init__(self, net):
-        self.net, self.conn, self.closed = net, None, False
+    def __init__(self, net, conn=None):
+        self.net, self.conn, self.closed = net, conn, False
+
+    def recv(self, n, flags=0):
+        if self.closed:
+            raise OSError(errno.EBADF, "Bad file descriptor")
+        if self.conn is None:
+            raise OSError(errno.ENOTCONN, "Transport endpoint is not connected")
+        return self.conn[0].recv(n, flags)
 
     def setsockopt(self, *a):
         pass
@@ -219,11 +258,24 @@ def _pending(d):
     return bytes(buf) if isinstance(buf, (bytes, bytearray)) else b"".join(bytes(c) for c in buf)
 
 
-def _calls(d, ncalls):
+def poll_set(polls, ncalls):
+    """`polls`: None (no status poll), "all" (before every readline() and after the last one) or a list of indices
+    i in 0..ncalls: `is_connected` is read before the i-th call (i = ncalls: after the last one)."""
+    if not polls:
+        return frozenset()
+    return frozenset(range(ncalls + 1)) if polls == "all" else frozenset(polls)
+
+
+def _calls(d, ncalls, polls=None):
     from gscrib.printrun.device import READ_EMPTY, READ_EOF
 
     out = []
-    for _ in range(ncalls):
+    polls = poll_set(polls, ncalls)
+    for i in range(ncalls + 1):
+        if i in polls:
+            d.is_connected          # public, read-only status query; its answer is not judged
+        if i == ncalls:
+            break
         r = d.readline()
         if r is READ_EOF:
             out.append("E")
@@ -234,12 +286,13 @@ def _calls(d, ncalls):
     return out
 
 
-def impl_session(conns, lower_seed):
-    """One Device object; for each (events, ncalls): connect(), ncalls x readline(), disconnect().
+def impl_session(conns, lower_seed, polls=None):
+    """One Device object; for each (events, ncalls): connect(), ncalls x readline() (with the status polls of
+    `polls[k]` in between), disconnect().
 
     Per connection: the usual record, the bytes that were buffered when its first readline() was made
     (`carry`), the bytes the Device actually took from the socket (`received`) and whether it read the
-    end-of-stream mark (`eof_seen`)."""
+    end-of-stream mark (`eof_seen`) or was shown it by a non-consuming look at the socket (`eof_peeked`)."""
     import gscrib.printrun.device as devmod
 
     rng = random.Random(lower_seed)
@@ -251,14 +304,14 @@ def impl_session(conns, lower_seed):
             d.connect("printer.local:23")
             assert net.k == k + 1, "connect() did not open exactly one connection"
             carry = _pending(d)
-            out = _calls(d, ncalls)
+            out = _calls(d, ncalls, polls[k] if polls else None)
             buf = _pending(d)
             d.disconnect()
             f = net.scripts[k][0]
-            taken = f.reads[: f.i]
+            taken = f.taken
             recs.append({"rec": " ".join(out) + " | buf=" + buf.hex(), "carry": carry.hex(),
                          "received": b"".join(x for x in taken if x).hex(),
-                         "eof_seen": any(x == b"" for x in taken)})
+                         "eof_seen": any(x == b"" for x in taken), "eof_peeked": f.peeked_eof})
     return recs
 
 
@@ -314,14 +367,17 @@ def oracle_life(conns, recs):
         buf = bytes.fromhex(buf)
         toks = res.split(" ") if res else []
         lines = [bytes.fromhex(t[1:]) for t in toks if t.startswith("l")]
-        received, eof_seen = bytes.fromhex(r["received"]), r["eof_seen"]
+        received = bytes.fromhex(r["received"])
+        # the close by the peer has been observed by the Device: it read the end-of-stream mark, or it reports
+        # end-of-stream after a non-consuming look at the socket was answered "closed" (nothing is unread then)
+        eof_seen = r["eof_seen"] or ("E" in toks and r.get("eof_peeked", False))
         sent = b"".join(e[1] for e in events if e[0] == "c")
         has_eof = any(e[0] == "e" for e in events)
         n_again = sum(1 for e in events if e[0] == "a")
         backlog = len(expect_all) - len(lines_all)          # complete lines received earlier, not yet returned
         if "E" in toks:
             if not eof_seen:
-                return at + (f"end-of-stream reported although no close by the peer was read ({len(sent) - len(received)} "
+                return at + (f"end-of-stream reported although no close by the peer was seen ({len(sent) - len(received)} "
                              f"byte(s) of this connection's stream {sent!r} never delivered)")
             if any(t.startswith("l") for t in toks[toks.index("E"):]):
                 return at + "a line was returned after end-of-stream"
@@ -343,7 +399,8 @@ def oracle_life(conns, recs):
             return at + (f"bytes lost or duplicated: returned+buffered {len(b''.join(lines_all)) + len(buf)} bytes, "
                          f"received {len(received_all)}")
         if "E" in toks and lines_all != expect_all:
-            return at + "end-of-stream reported before every received byte was delivered"
+            return at + (f"end-of-stream reported before every received byte was delivered: {buf!r} was received and is "
+                         f"still buffered, lines returned on this connection {lines!r}")
         if ncalls >= backlog + sent.count(NLb) + n_again + (1 if has_eof else 0):
             # enough calls for every line, every time-out and the close: every line of the stream must have come out
             # (an unterminated tail may still be unread if the peer has not closed)
@@ -381,11 +438,23 @@ def gen_case(rng):
     ncalls = nlines + sum(1 for e in events if e[0] == "a") + (4 if closed else 1) + rng.randint(0, 2)
     if rng.random() < 0.15 and ncalls > 1:
         ncalls = rng.randint(1, ncalls)  # stop early: exercises the "not yet closed" clauses
-    return events, ncalls
+    return events, ncalls, gen_polls(rng, ncalls)
+
+
+def gen_polls(rng, ncalls):
+    """Status polls between the reads: none / before every read (what printcore's listener does) / a random subset."""
+    u = rng.random()
+    if u < 0.55:
+        return None
+    if u < 0.8:
+        return "all"
+    p = rng.choice([0.1, 0.3, 0.6])
+    return [i for i in range(ncalls + 1) if rng.random() < p] or None
 
 
 def exhaustive_cases(maxlen):
-    """All strings <= maxlen over {a, \\n}, all fragmentations, `again` before a fixed chunk subset, then EOF."""
+    """All strings <= maxlen over {a, \\n}, all fragmentations, `again` before a fixed chunk subset, then EOF;
+    each without status polls and with one before every read."""
     for L in range(maxlen + 1):
         for s in itertools.product(b"a\n", repeat=L):
             s = bytes(s)
@@ -405,11 +474,19 @@ def exhaustive_cases(maxlen):
                             ev.append(("a",))
                         ev.append(("c", c))
                     ev.append(("e",))
-                    yield ev, s.count(b"\n") + sum(again_mask) + 3
+                    for polls in (None, "all"):
+                        yield ev, s.count(b"\n") + sum(again_mask) + 3, polls
 
 
-def case_repr(events, ncalls):
-    return {"calls": ncalls, "events": [e[0] if e[0] != "c" else "c" + e[1].hex() for e in events]}
+def case_repr(events, ncalls, polls=None):
+    r = {"calls": ncalls, "events": [e[0] if e[0] != "c" else "c" + e[1].hex() for e in events]}
+    if polls:
+        r["polls"] = polls
+    return r
+
+
+def poll_label(polls):
+    return "polls:" + ("none" if not polls else "before-every-read" if polls == "all" else "some")
 
 
 ENDINGS = ("close-nl", "close-tail", "close-early", "drop-clean", "drop-leftover")
@@ -464,37 +541,136 @@ def gen_session(rng):
         if conns and rng.random() < 0.5:
             n += 3          # lines carried in from an earlier connection need calls of their own
         conns.append((ev, n))
-    return conns, endings, rng.randrange(1 << 30)
+    seed = rng.randrange(1 << 30)
+    u = rng.random()
+    if u < 0.5:
+        polls = None
+    elif u < 0.75:
+        polls = ["all"] * k
+    else:
+        polls = [gen_polls(rng, n) for _, n in conns]
+        polls = polls if any(polls) else None
+    return conns, endings, seed, polls
 
 
-def session_repr(conns, lower_seed):
-    return {"session": [case_repr(ev, n) for ev, n in conns], "lower_seed": lower_seed}
+def session_repr(conns, lower_seed, polls=None):
+    return {"session": [case_repr(ev, n, polls[k] if polls else None) for k, (ev, n) in enumerate(conns)],
+            "lower_seed": lower_seed}
+
+
+def _sess(s):
+    """(conns, endings, lower seed[, polls]) -> always four fields"""
+    return (*s, None)[:4]
+
+
+# ------------------------------------------------------------------ real loopback TCP connections (oracle only)
+def gen_tcp(rng):
+    """The peer's replies (short lines, as a printer sends them, maybe an unterminated tail) sent in 1..3 phases, the
+    last one followed by the peer closing; after each phase the Device makes some reads (enough, after the last one,
+    for every line, the tail and the end-of-stream), with status polls in between."""
+    alphabet = b"ab\r0123 ok:.XYZ\xff\x00"
+    nl = rng.randint(0, rng.choice([1, 2, 4, 12, 60]))
+    stream = b"".join(bytes(rng.choice(alphabet) for _ in range(rng.randint(0, rng.choice([2, 8, 40])))) + b"\n"
+                      for _ in range(nl))
+    if rng.random() < 0.5:
+        stream += bytes(rng.choice(alphabet) for _ in range(rng.randint(1, 8)))
+    k = rng.choice([1, 1, 2, 3])
+    cuts = sorted(rng.randint(0, len(stream)) for _ in range(k - 1))
+    parts = [stream[a:b] for a, b in zip([0] + cuts, cuts + [len(stream)])]
+    phases, avail = [], 0
+    for j, part in enumerate(parts):
+        avail += part.count(b"\n")
+        if j == k - 1:
+            calls = avail + 4
+        else:
+            calls = avail + 1 if rng.random() < 0.15 else rng.randint(0, avail)   # sometimes one read that finds nothing
+            avail -= min(calls, avail)
+        phases.append((part, calls))
+    u = rng.random()
+    polls = None if u < 0.3 else ["all"] * k if u < 0.75 else [gen_polls(rng, n) for _, n in phases]
+    return phases, (polls if polls and any(polls) else None)
+
+
+def tcp_repr(phases, polls):
+    return {"tcp": [{"send": part.hex(), "calls": n, **({"polls": polls[j]} if polls and polls[j] else {})}
+                    for j, (part, n) in enumerate(phases)]}
+
+
+def impl_tcp(phases, polls):
+    """A real Device connected to a real listening socket on the loopback interface.  None: no such socket to be had."""
+    import gscrib.printrun.device as devmod
+
+    srv, conn, d = _socket.socket(_socket.AF_INET, _socket.SOCK_STREAM), None, devmod.Device()
+    try:
+        try:
+            srv.bind(("127.0.0.1", 0))
+            srv.listen(1)
+            srv.settimeout(5)
+            d.connect("127.0.0.1:%d" % srv.getsockname()[1])
+            conn, _ = srv.accept()
+            conn.setsockopt(_socket.IPPROTO_TCP, _socket.TCP_NODELAY, 1)
+        except (OSError, devmod.DeviceError):
+            return None
+        d._timeout = 0.02          # a read that finds nothing waits this long (0.25 s as connected)
+        out = []
+        for j, (part, calls) in enumerate(phases):
+            if part:
+                conn.sendall(part)
+            if j == len(phases) - 1:
+                conn.close()       # orderly shutdown: the Device never writes, nothing of it is unread here
+            out += _calls(d, calls, polls[j] if polls else None)
+        return " ".join(out) + " | buf=" + _pending(d).hex()
+    finally:
+        with contextlib.suppress(Exception):
+            d.disconnect()
+        if conn is not None:
+            conn.close()
+        srv.close()
+
+
+def run_tcp(R, cases, label):
+    for phases, polls in cases:
+        rec = impl_tcp(phases, polls)
+        if rec is None:
+            R.count(f"{label}:unavailable")
+            continue
+        stream = b"".join(part for part, _ in phases)
+        rep = tcp_repr(phases, polls)
+        R.case(rep, nontrivial=(stream.count(b"\n") >= 2))
+        R.count(label, f"{label}:phases:{len(phases)}",
+                f"{label}:polls:{'none' if not polls else 'before-every-read' if all(q == 'all' for q in polls) else 'some'}",
+                f"{label}:{'end-of-stream-reported' if ' E' in ' ' + rec else 'end-of-stream-not-reached'}")
+        msg = oracle([("c", stream), ("e",)], rec)
+        if msg:
+            R.fail(rep, msg, tag="tcp")
 
 
 def run_batch(R, cases, label):
     import random
 
-    lines = [model_line(ev, n) for ev, n in cases]
+    cases = [(*c, None)[:3] for c in cases]        # (events, calls[, status polls])
+    lines = [model_line(ev, n) for ev, n, _ in cases]     # a status poll is a no-op of the model
     model_out = core.run_model("socket", lines)
-    for (ev, n), mo in zip(cases, model_out):
+    for (ev, n, polls), mo in zip(cases, model_out):
         sub = random.Random(R.rng.random())
-        io = impl_run(ev, n, sub)
+        io = impl_run(ev, n, sub, polls)
         stream_len = sum(len(e[1]) for e in ev if e[0] == "c")
         nl = sum(e[1].count(b"\n") for e in ev if e[0] == "c")
-        R.case(case_repr(ev, n), nontrivial=(nl >= 1 and len(ev) >= 3))
-        R.count(label, f"chunks:{min(len(ev) // 10 * 10, 100)}+", f"len:{'0' if stream_len == 0 else '<=20' if stream_len <= 20 else '<=200' if stream_len <= 200 else '>200'}",
+        R.case(case_repr(ev, n, polls), nontrivial=(nl >= 1 and len(ev) >= 3))
+        R.count(label, poll_label(polls), f"chunks:{min(len(ev) // 10 * 10, 100)}+", f"len:{'0' if stream_len == 0 else '<=20' if stream_len <= 20 else '<=200' if stream_len <= 200 else '>200'}",
                 "closed" if any(e[0] == "e" for e in ev) else "open")
         if io != mo:
-            R.disagree("socket-readline", case_repr(ev, n), io, mo)
+            R.disagree("socket-readline", case_repr(ev, n, polls), io, mo)
         msg = oracle(ev, io)
         if msg:
-            R.fail(case_repr(ev, n), msg, tag="split")
+            R.fail(case_repr(ev, n, polls), msg, tag="split")
 
 
 def run_sessions(R, sessions, label):
-    recs_all = [impl_session(conns, seed) for conns, _, seed in sessions]
+    sessions = [_sess(s) for s in sessions]
+    recs_all = [impl_session(conns, seed, polls) for conns, _, seed, polls in sessions]
     lines, where = [], []
-    for si, ((conns, _, _), recs) in enumerate(zip(sessions, recs_all)):
+    for si, ((conns, _, _, _), recs) in enumerate(zip(sessions, recs_all)):
         for ci, ln in enumerate(session_model_lines(conns, recs)):
             if ln is not None:
                 lines.append(ln)
@@ -504,13 +680,14 @@ def run_sessions(R, sessions, label):
     for (si, ci), mo in zip(where, model_out):
         if recs_all[si][ci]["rec"] != mo and si not in bad:
             bad[si] = (ci, mo)
-    for si, ((conns, endings, seed), recs) in enumerate(zip(sessions, recs_all)):
-        rep = session_repr(conns, seed)
+    for si, ((conns, endings, seed, polls), recs) in enumerate(zip(sessions, recs_all)):
+        rep = session_repr(conns, seed, polls)
         with_data = sum(1 for ev, _ in conns if any(e[0] == "c" for e in ev))
         nl = sum(e[1].count(b"\n") for ev, _ in conns for e in ev if e[0] == "c")
         R.case(rep, nontrivial=(with_data >= 2 and nl >= 1))
         R.count(label, f"{label}:conns:{len(conns)}", *{f"{label}:{e}" for e in endings},
-                f"{label}:{'carry-in' if any(r['carry'] for r in recs) else 'no-carry'}")
+                f"{label}:{'carry-in' if any(r['carry'] for r in recs) else 'no-carry'}",
+                f"{label}:polls:{'none' if not polls else 'before-every-read' if all(q == 'all' for q in polls) else 'some'}")
         for a, b in zip(endings, endings[1:]):
             R.count(f"{label}:after:{a}")      # how the previous connection of a reconnect ended
         if si in bad:
@@ -526,12 +703,18 @@ def run(R: core.Run):
               "'no data yet' insertions x early stop; non-trivial = at least one newline and >= 3 socket events; distinct by hash; "
               "plus sessions of 2..6 consecutive connections of ONE Device through connect()/disconnect() (each ending by peer "
               "close after a newline / after an unterminated tail / unread, or by host disconnect with nothing / a tail buffered), "
-              "judged over the Device's whole life; non-trivial = >= 2 connections carrying data and >= 1 newline")
+              "judged over the Device's whole life; non-trivial = >= 2 connections carrying data and >= 1 newline; "
+              "in both families ~45% of the cases read the public `is_connected` property between the reads (before every "
+              "read / before a random subset), the scripted socket answering recv / recv(MSG_PEEK) consistently with the "
+              "scripted stream; plus a few real loopback TCP connections (peer sends in 1..3 phases and closes, reads and "
+              "status polls in between; oracle only; non-trivial = >= 2 newlines)")
     R.assumptions = [
         "the OS socket layer / selectors deliver the bytes; the harness scripts `_socketfile.read` and `_selector.select`",
         "a real read() never returns b'' except at end-of-stream (modelled as the sticky `eof` event)",
         "reconnects: `socket.socket` / `selectors.DefaultSelector` as seen by gscrib.printrun.device are scripted; "
         "connect() always succeeds; the model is fed one connection at a time, bytes carried in as a leading chunk",
+        "a read of `Device.is_connected` is no event of the model: the model line of a polled case is that of the same "
+        "case without polls; a non-consuming recv(MSG_PEEK) on the scripted socket does not advance the script",
     ]
     corpus = [
         ([("c", b"ab\nc"), ("a",), ("c", b"d\n"), ("c", b"e"), ("e",)], 5),
@@ -542,6 +725,10 @@ def run(R: core.Run):
         ([("c", (b"0123456\n" * 32)), ("c", b"tail\nmore"), ("e",)], 40),      # a full 256-byte read holding 32 lines, then data
         ([("c", (b"0123456\n" * 32)), ("e",)], 36),                              # ... then close
         ([("c", (b"x" * 255 + b"\n")), ("a",), ("c", b"y\n"), ("e",)], 6),
+        # status polls between the reads (printcore's listener: before every read)
+        ([("c", b"ok\nT:20 /0\nbye"), ("e",)], 5, "all"),                      # last packet = two lines and a tail, then close
+        ([("c", b"a\n"), ("a",), ("c", b"b\nc\n"), ("e",)], 6, [2, 3]),
+        ([("c", b"a\nb"), ("c", b"c\n")], 3, "all"),                           # peer still there
     ]
     run_batch(R, corpus, "corpus")
     cases = [gen_case(R.rng) for _ in range(R.n(3000, 60000))]
@@ -556,30 +743,34 @@ def run(R: core.Run):
         ([([("c", b"x\n")], 2), ([("a",), ("c", b"y"), E], 4), ([("c", b"z\n"), ("c", b"w\n")], 2)],
          ["drop-clean", "close-tail", "drop-clean"], 3),
     ]
+    session_corpus.append(
+        # polled before every read: two lines in the last packet of the first connection, a tail in the second's
+        ([([("c", b"ok\nok\n"), E], 4), ([("c", b"x\ny"), E], 4)], ["close-nl", "close-tail"], 4, ["all", "all"]))
     run_sessions(R, session_corpus, "reconnect-corpus")
     run_sessions(R, [gen_session(R.rng) for _ in range(R.n(700, 12000))], "reconnect")
+    run_tcp(R, [gen_tcp(R.rng) for _ in range(R.n(30, 400))], "tcp-loopback")
     if R.thorough:
         ex = list(exhaustive_cases(6))
         run_batch(R, ex, "exhaustive<=6")
         R.exhaustive = False
-        R.extra["exhaustive_subrun"] = {"cases": len(ex), "scope": "all strings <= 6 over {a,\\n} x all fragmentations x {no, all} time-outs, then EOF", "exhaustive": True}
+        R.extra["exhaustive_subrun"] = {"cases": len(ex), "scope": "all strings <= 6 over {a,\\n} x all fragmentations x {no, all} time-outs, then EOF, x {no status poll, one before every read}", "exhaustive": True}
     if R.broken:
         # failing-input search: a fresh, larger batch judged by the oracle only
         R.search_batches += 1
         for _ in range(R.n(6000, 20000)):
-            ev, n = gen_case(R.rng)
+            ev, n, polls = gen_case(R.rng)
             import random
-            io = impl_run(ev, n, random.Random(R.rng.random()))
+            io = impl_run(ev, n, random.Random(R.rng.random()), polls)
             R.evaluations += 1
             msg = oracle(ev, io)
             if msg:
-                R.fail(case_repr(ev, n), msg, tag="split")
+                R.fail(case_repr(ev, n, polls), msg, tag="split")
         for _ in range(R.n(1500, 5000)):
-            conns, _, seed = gen_session(R.rng)
+            conns, _, seed, polls = gen_session(R.rng)
             R.evaluations += 1
-            msg = oracle_life(conns, impl_session(conns, seed))
+            msg = oracle_life(conns, impl_session(conns, seed, polls))
             if msg:
-                R.fail(session_repr(conns, seed), msg, tag="reconnect")
+                R.fail(session_repr(conns, seed, polls), msg, tag="reconnect")
     return {}, {}
 
 
@@ -593,9 +784,22 @@ def replay(data):
         print("replay: no case recorded (", data.get("no_longer_checks"), ")")
         return 1
     unhex = lambda evs: [("c", bytes.fromhex(e[1:])) if e.startswith("c") else (e,) for e in evs]
+    if "tcp" in case:
+        phases = [(bytes.fromhex(ph["send"]), ph["calls"]) for ph in case["tcp"]]
+        polls = [ph.get("polls") for ph in case["tcp"]]
+        rec = impl_tcp(phases, polls if any(polls) else None)
+        if rec is None:
+            print("replay: no loopback TCP connection could be made")
+            return 1
+        msg = oracle([("c", b"".join(p for p, _ in phases)), ("e",)], rec)
+        print("impl :", rec)
+        print("oracle:", msg or "ok")
+        return 1 if msg else 0
     if "session" in case:
         conns = [(unhex(c["events"]), c["calls"]) for c in case["session"]]
-        recs = impl_session(conns, case["lower_seed"])
+        polls = [c.get("polls") for c in case["session"]]
+        polls = polls if any(polls) else None
+        recs = impl_session(conns, case["lower_seed"], polls)
         mls = session_model_lines(conns, recs)
         mos = iter(core.run_model("socket", [m for m in mls if m is not None]))
         mos = [next(mos) if m is not None else r["rec"] for m, r in zip(mls, recs)]
@@ -604,11 +808,15 @@ def replay(data):
                   f"{' + end-of-stream' if r['eof_seen'] else ''}")
             print("  impl :", r["rec"])
             print("  model:", mo)
+        if polls:
+            print("status polls (`is_connected` read before these readline() calls):", polls)
         msg = oracle_life(conns, recs)
         print("oracle:", msg or "ok")
         return 1 if (msg or any(r["rec"] != mo for r, mo in zip(recs, mos))) else 0
     ev = [("c", bytes.fromhex(e[1:])) if e.startswith("c") else (e,) for e in case["events"]]
-    io = impl_run(ev, case["calls"], random.Random(0))
+    io = impl_run(ev, case["calls"], random.Random(0), case.get("polls"))
+    if case.get("polls"):
+        print("status polls (`is_connected` read before these readline() calls):", case["polls"])
     mo = core.run_model("socket", [model_line(ev, case["calls"])])[0]
     msg = oracle(ev, io)
     print("impl :", io)
